@@ -90,6 +90,7 @@ def run(check, prog):
     reusable(check, prog)
     saved(check, prog)
     payload(check, prog)
+    minimiser_internals(check, prog)
     # bounds are inclusive on both sides of the hand-off: the optimiser's limits
     # table and the prior's own support predicate (rule shared with C14)
     from . import c14
@@ -1287,3 +1288,127 @@ def payload(check, prog):
                   % sorted(need), loc2,
                   fail_detail='%s put into results by %s but never read back' % (
                       missing, sorted({need[k] for k in missing})))
+
+
+# ----------------------------------------------------------------------
+def minimiser_internals(check, prog):
+    """L10 / L11: two shape rules on the Levenberg-Marquardt code NmpfitStrategy runs
+    (holopy/inference/third_party/nmpfit.py, a translation of MINPACK).
+
+    L10  a saved value must be a snapshot.  `v = numpy.diagonal(A)` (likewise `.T`,
+         a basic slice, `.ravel()`, `.reshape()`) is a *view*: if A is stored into
+         afterwards and v is read after that, v no longer holds what was saved --
+         `A[j, j] = v[j]` then restores nothing.  qrsolv saves the diagonal of R
+         that way; lmpar calls it repeatedly on the same R.
+    L11  the Gauss-Newton direction solves R x = Q^T b for every non-singular
+         leading block, the 1 x 1 block included (MINPACK lmpar: `if (nsing .lt. 1)
+         go to 50`): the back substitution `for j in range(nsing-1, -1, -1)` must
+         run whenever nsing >= 1.  Guarded by `nsing > 1`, a fit with one free
+         parameter takes Q^T b itself as its step."""
+    modname = 'holopy.inference.third_party.nmpfit'
+    if modname not in prog.modules:
+        check.error('module %s not found' % modname)
+        return
+    mod = prog.modules[modname]
+    tree = ast.parse(mod.src)
+    VIEW_FUNCS = {'diagonal', 'ravel', 'reshape', 'transpose', 'swapaxes', 'squeeze'}
+    COPIES = {'copy', 'array', 'deepcopy', 'asarray_chkfinite'}
+    nviews = 0
+    bad10 = []
+    nfuncs = 0
+    for fn in [n for n in ast.walk(tree) if isinstance(n, ast.FunctionDef)]:
+        nfuncs += 1
+        stmts = [s for s in ast.walk(fn) if isinstance(s, ast.stmt)]
+        stmts.sort(key=lambda s: (s.lineno, s.col_offset))
+        for st in stmts:
+            if not (isinstance(st, ast.Assign) and len(st.targets) == 1 and
+                    isinstance(st.targets[0], ast.Name)):
+                continue
+            v, e = st.targets[0].id, st.value
+            base = None
+            if isinstance(e, ast.Call) and isinstance(e.func, ast.Attribute) and \
+                    e.func.attr in VIEW_FUNCS:
+                # numpy.diagonal(A) / A.diagonal()
+                recv = e.func.value
+                if isinstance(recv, ast.Name) and recv.id in ('numpy', 'np') and e.args \
+                        and isinstance(e.args[0], ast.Name):
+                    base = e.args[0].id
+                elif isinstance(recv, ast.Name):
+                    base = recv.id
+            elif isinstance(e, ast.Attribute) and e.attr == 'T' and isinstance(e.value, ast.Name):
+                base = e.value.id
+            if base is None or base == v:
+                continue
+            nviews += 1
+            after = [s for s in stmts if (s.lineno, s.col_offset) > (st.lineno, st.col_offset)]
+            # v rebound before any use?  then only statements up to the rebinding count
+            stores, reads = [], []
+            for s in after:
+                if isinstance(s, ast.Assign) and any(
+                        isinstance(t, ast.Name) and t.id == v for t in s.targets) and \
+                        not any(isinstance(n, ast.Name) and n.id == v
+                                for n in ast.walk(s.value)):
+                    break
+                for t in (s.targets if isinstance(s, ast.Assign) else
+                          [s.target] if isinstance(s, ast.AugAssign) else []):
+                    root = t
+                    while isinstance(root, (ast.Subscript, ast.Attribute)):
+                        root = root.value
+                    if isinstance(t, ast.Subscript) and isinstance(root, ast.Name) \
+                            and root.id == base:
+                        stores.append(s.lineno)
+                val = s.value if isinstance(s, (ast.Assign, ast.AugAssign, ast.Expr,
+                                                  ast.Return)) and s.value is not None else None
+                if val is not None and any(isinstance(n, ast.Name) and n.id == v and
+                                           isinstance(n.ctx, ast.Load)
+                                           for n in ast.walk(val)):
+                    reads.append(s.lineno)
+            if stores and any(r_ > min(stores) for r_ in reads):
+                bad10.append('%s: `%s = %s` (line %d) is a view of %s, which is stored '
+                             'into at line %d and read back at line %d' % (
+                                 fn.name, v, ast.unparse(e), st.lineno, base,
+                                 min(stores), min(r_ for r_ in reads if r_ > min(stores))))
+    check.floor('functions of the bundled minimiser scanned', nfuncs, 10)
+    check.require(not bad10, 'L10-saved-value-is-a-snapshot', 'third_party.nmpfit',
+                  'no array view is used as the saved copy of something that is then '
+                  'overwritten (%d view bindings checked)' % nviews,
+                  '%s:1' % mod.relpath,
+                  fail_detail='; '.join(bad10[:2]) + ': the restore is a no-op, so the '
+                  'matrix handed back differs and every later trial step of the '
+                  'Levenberg-Marquardt parameter search is computed from a corrupted R')
+    # L11
+    lm = [n for n in ast.walk(tree) if isinstance(n, ast.FunctionDef) and n.name == 'lmpar']
+    if len(lm) != 1:
+        check.error('lmpar not found in %s' % modname)
+        return
+    bad11 = []
+    nloops = 0
+    for n in ast.walk(lm[0]):
+        if not isinstance(n, ast.If):
+            continue
+        for inner in n.body:
+            if not (isinstance(inner, ast.For) and isinstance(inner.iter, ast.Call) and
+                    isinstance(inner.iter.func, ast.Name) and inner.iter.func.id == 'range'):
+                continue
+            a = inner.iter.args
+            # range(N - 1, -1, -1): runs for N >= 1
+            if len(a) == 3 and ast.unparse(a[1]) == '-1' and ast.unparse(a[2]) == '-1' and \
+                    isinstance(a[0], ast.BinOp) and isinstance(a[0].op, ast.Sub) and \
+                    ast.unparse(a[0].right) == '1':
+                N = ast.unparse(a[0].left)
+                t = n.test
+                if isinstance(t, ast.Compare) and len(t.ops) == 1 and \
+                        ast.unparse(t.left) == N and isinstance(t.comparators[0], ast.Constant):
+                    nloops += 1
+                    k = t.comparators[0].value
+                    runs_from = {ast.Gt: k + 1, ast.GtE: k, ast.NotEq: None}.get(type(t.ops[0]))
+                    if runs_from is None or runs_from > 1:
+                        bad11.append('`if %s:` (line %d) skips the back substitution for '
+                                     '%s == 1' % (ast.unparse(t), n.lineno, N))
+    check.floor('guarded back substitutions in lmpar', nloops, 1)
+    check.require(not bad11, 'L11-gauss-newton-for-one-parameter', 'third_party.nmpfit.lmpar',
+                  'the back substitution R x = Q^T b runs for every nsing >= 1',
+                  '%s:%d' % (mod.relpath, lm[0].lineno),
+                  fail_detail='; '.join(bad11) + ': with a single free parameter the step '
+                  'is Q^T b itself, not R^-1 Q^T b -- the fit returns its starting value '
+                  '(or crawls) and reports convergence')
